@@ -1,7 +1,7 @@
 """C13 — every switch request is answered once, with its transaction id, in order (DESIGN §5 C13).
 
 translate : harness/translate/dispatch_tables.py regenerates lean/PoxModel/Generated/SwitchDispatch.lean from $POX_REPO
-            (handler tables of SoftwareSwitchBase.__init__, message classes, handler send summaries, constants).
+            (the four handler tables of a live SoftwareSwitch, message / stats-request class registries, constants).
 model     : drv_c13 runs `rxMessage` (Model/SwitchReq.lean) over a request sequence from an initial state read off the
             real switch object.
 impl      : real SoftwareSwitch + OFConnection + IOWorker (harness/swnet.py); every request goes in as BYTES (one push per
@@ -185,31 +185,35 @@ class C13(Check):
     prop_module = "PoxModel.Properties.C13"
     lean_targets = ["drv_c13"]
     driver = "drv_c13"
-    theorems = ["Pox.C13.dispatch_agrees", "Pox.C13.classes_agree", "Pox.C13.summary_agrees", "Pox.C13.consts_spec",
+    theorems = ["Pox.C13.dispatch_agrees", "Pox.C13.classes_agree", "Pox.C13.requests_handled", "Pox.C13.consts_spec",
                 "Pox.C13.one_reply", "Pox.C13.stats_spec", "Pox.C13.silent_kinds", "Pox.C13.handled", "Pox.C13.never_fails", "Pox.C13.order", "Pox.C13.stream_concat",
                 "Pox.C13.barrier_after", "Pox.C13.errors_spec", "Pox.C13.replies_carry_xid", "Pox.C13.set_config_visible",
                 "Pox.C13.unhandled_type_fails"]
-    anchors = [("pox/datapaths/switch.py", 135, 175), ("pox/datapaths/switch.py", 234, 246), ("pox/datapaths/switch.py", 266, 420),
-               ("pox/datapaths/switch.py", 452, 472), ("pox/datapaths/switch.py", 962, 1035)]
+    anchors = [("pox/datapaths/switch.py", "SoftwareSwitchBase." + m) for m in (
+                   "__init__", "rx_message", "send", "_rx_hello", "_rx_echo_request", "_rx_features_request", "_rx_flow_mod", "_rx_packet_out",
+                   "_rx_echo_reply", "_rx_barrier_request", "_rx_get_config_request", "_rx_stats_request", "_rx_set_config", "_rx_port_mod",
+                   "_rx_vendor", "_rx_queue_get_config_request", "send_hello", "send_error", "_process_actions_for_packet_from_buffer",
+                   "_stats_desc", "_stats_flow", "_stats_aggregate", "_stats_table", "_stats_port", "_stats_queue")] + \
+              [("pox/datapaths/switch.py", "OFConnection.send")]
     coverage_cases = 200
     design_ref = "DESIGN.md §5 C13"
     technique = ("Lean 4 proof over a hand-written executable model of rx_message and the _rx_*/_stats_*/_flow_mod_* handlers, whose dispatch tables, "
-                 "message classes, per-handler send summaries and constants are regenerated from the source by an ast translator and compared by `decide`; "
+                 "message classes and constants are read off a live switch object on every run (translator with a runtime probe) and compared by `decide`; "
                  "differential correspondence through the byte-level switch connection; independent reply oracle")
     level_text = ("Theorems (all states, all bodies, all sequences, no bound): one_reply — echo/features/get-config/barrier/each stats type/queue-get-config "
                   "yields exactly one message, carrying the request's xid, which is the specified reply (with the state's data) or the specified error, and the state is unchanged; "
                   "silent_kinds — set_config, echo_reply, a second hello, an accepted port_mod, packet_out and an accepted flow_mod write no reply (only asynchronous notifications); "
                   "never_fails — no internal failure for any decodable message of the 13 types; order/stream_concat/barrier_after — the stream is the concatenation of the per-request "
                   "groups and a barrier reply follows everything earlier, emitted in the state that holds all earlier effects; errors_spec — each invalid port/queue/command/stats "
-                  "type/vendor/action class maps to the error type and code of OpenFlow 1.0; dispatch_agrees/classes_agree/summary_agrees — the model's tables equal what the "
-                  "translator reads from the source now.")
+                  "type/vendor/action class maps to the error type and code of OpenFlow 1.0; dispatch_agrees/classes_agree/requests_handled — the model's tables equal what the "
+                  "translator reads off the live switch object now, and every controller-to-switch type of the standard has a handler.")
     level_note = ("Proved about the model only; the model is tied to the code by (a) the `decide` obligations over regenerated data and (b) the correspondence run. "
                   "Abstractions: matches are {all-wildcard, in_port=k}; actions are (type, output port); enqueue and output:TABLE are outside (C12) and excluded by the InScope "
                   "hypothesis; malformed bodies are C10's; reply payload bytes beyond the compared key fields are C01's. The model follows the REPAIRED code "
                   "(fixes D9, D10, D27, C13-1 committed; C13-2 = fixes/C13-2_buffer_unknown_error.diff: unknown / used buffer ids are answered with BAD_REQUEST/BUFFER_UNKNOWN / BUFFER_EMPTY; "
                   "while finding C13-2 is open the sequences that name such a buffer are oracle-only).")
-    trusted_base = ["model Model/SwitchReq.lean hand-written from pox/datapaths/switch.py (+ flow_table.py for the table summary); tied by dispatch/summary `decide` obligations and this correspondence run",
-                    "harness/translate/dispatch_tables.py (decides which table/summary stands for the constructor and handlers)",
+    trusted_base = ["model Model/SwitchReq.lean hand-written from pox/datapaths/switch.py (+ flow_table.py for the table summary); tied by the dispatch/class `decide` obligations and this correspondence run",
+                    "harness/translate/dispatch_tables.py (reads the four handler tables and the class registries off a live SoftwareSwitch in a child process; ast reading of the constructor only as fallback)",
                     "harness/swnet.py byte-level node; the struct-based reply decoder in harness/c13.py"]
     assumptions = ["single-threaded datapath: one message is handled to completion before the next (cooperative tasks)",
                    "messages are well-formed encodings produced by the library's own classes (malformed input is C10)",
